@@ -1,4 +1,283 @@
-(** Harness glue for C19 (stub: no families yet). *)
-From Coq Require Import List String.
-From KV Require Import Glue.Val.
-Definition c19_run (fam : string) (args : list val) : option string := None.
+(** Harness glue for C19.
+
+    c19.opt / c19.res / c19.try :  ty macro form variant x k   ->  v=<value>;log=[events]
+      form     E (no closure) | C (inline closure) | P (fn path) | V (closure held in a variable)
+               | Z (try_!'s  map_err = || v)
+      variant  S | N | SS | SN (Option) ;  O | E (Result)
+      events   1 = [$e] evaluated, 2 = eager [$v] evaluated, 10/20/30 (+ argument) = the
+               C/P/V closure was called, 5 (+ argument) = the code after try_! ran
+    c19.minmax      :  macro form shape kl kr   ->  L | R
+    c19.minmaxprim  :  macro ty a b             ->  the value
+    c19.rebind      :  macro shape [kinds] variant [payload]  ->  r=..;p=[..];f=[..];x=[..];l=[..] *)
+From Coq Require Import List ZArith Bool String.
+From KV Require Import Base.Prelude Model.OptRes Model.MinMax Model.Rebind Glue.Val.
+Import ListNotations.
+Local Open Scope string_scope.
+
+Definition MZ := @M Z.
+
+(* ------------------------------------------------------------------ rendering *)
+Definition show_res {A B} (f : A -> string) (g : B -> string) (r : result A B) : string :=
+  match r with Ok x => "O(" ++ f x ++ ")" | Err x => "E(" ++ g x ++ ")" end.
+Definition show_outcome {A} (f : A -> string) (o : outcome A) : string :=
+  match o with Val x => f x | Panic => "PANIC" end.
+Definition show_m {A} (f : A -> string) (m : MZ A) : string :=
+  show_fields [("v", f (fst m)); ("log", show_list show_Z (snd m))].
+
+(* ------------------------------------------------------------------ the harness's closures *)
+Definition form_code (form : string) : Z :=
+  if String.eqb form "C" then 10 else if String.eqb form "P" then 20
+  else if String.eqb form "V" then 30 else 0.
+
+Definition half (x : Z) : Z := x / 2.      (* Rust [x >> 1] on i64 *)
+
+Definition ev_e {A} (o : A) : MZ A := (o, [1]).
+Definition ev_v (k : Z) : MZ Z := (k, [2]).
+Definition fb_val (c k : Z) : unit -> MZ Z := fun _ => (k, [c]).
+Definition fb_opt (c k : Z) : unit -> MZ (option Z) :=
+  fun _ => (if Z.even k then Some k else None, [c]).
+Definition fn_map (c k x : Z) : MZ Z := (half x + k, [c; x]).
+Definition fn_and_then (c k x : Z) : MZ (option Z) :=
+  (if Z.even x then Some (half x + k) else None, [c; x]).
+Definition fn_filter (c k x : Z) : MZ bool := (x >? k, [c; x]).
+Definition fn_res (c k x : Z) : MZ (result Z Z) :=
+  (if Z.even x then Ok (half x + k) else Err (half x - k), [c; x]).
+
+(* ------------------------------------------------------------------ Option macros *)
+Definition opt_of (variant : string) (x : Z) : option Z :=
+  if String.eqb variant "S" then Some x else None.
+Definition optopt_of (variant : string) (x : Z) : option (option Z) :=
+  if String.eqb variant "SS" then Some (Some x)
+  else if String.eqb variant "SN" then Some None else None.
+
+Definition run_opt (mac form variant : string) (x k : Z) : option string :=
+  let c := form_code form in
+  let e := ev_e (opt_of variant x) in
+  let closure := String.eqb form "C" in
+  let sz := show_m show_Z in
+  let so := show_m (show_opt show_Z) in
+  let sr := show_m (show_res show_Z show_Z) in
+  if String.eqb mac "unwrap" then Some (show_m (show_outcome show_Z) (opt_unwrap e))
+  else if String.eqb mac "unwrap_or" then Some (sz (opt_unwrap_or e (ev_v k)))
+  else if String.eqb mac "unwrap_or_else" then
+    Some (sz (if closure then opt_unwrap_or_else_c e (fb_val c k tt) else opt_unwrap_or_else_f e (fb_val c k)))
+  else if String.eqb mac "ok_or" then Some (sr (opt_ok_or e (ev_v k)))
+  else if String.eqb mac "ok_or_else" then
+    Some (sr (if closure then opt_ok_or_else_c e (fb_val c k tt) else opt_ok_or_else_f e (fb_val c k)))
+  else if String.eqb mac "map" then
+    Some (so (if closure then opt_map_c e (fn_map c k) else opt_map_f e (fn_map c k)))
+  else if String.eqb mac "and_then" then
+    Some (so (if closure then opt_and_then_c e (fn_and_then c k) else opt_and_then_f e (fn_and_then c k)))
+  else if String.eqb mac "or_else" then
+    Some (so (if closure then opt_or_else_c e (fb_opt c k tt) else opt_or_else_f e (fb_opt c k)))
+  else if String.eqb mac "flatten" then Some (so (opt_flatten (ev_e (optopt_of variant x))))
+  else if String.eqb mac "filter" then
+    Some (so (if closure then opt_filter_c e (fn_filter c k) else opt_filter_f e (fn_filter c k)))
+  else if String.eqb mac "copied" then
+    Some (show_fields [("v", show_opt show_Z (opt_copied (opt_of variant x))); ("log", "[]")])
+  else None.
+
+(* ------------------------------------------------------------------ Result macros *)
+Definition res_of (variant : string) (x : Z) : result Z Z :=
+  if String.eqb variant "O" then Ok x else Err x.
+
+Definition run_res (mac form variant : string) (x k : Z) : option string :=
+  let c := form_code form in
+  let e := ev_e (res_of variant x) in
+  let closure := String.eqb form "C" in
+  let sz := show_m show_Z in
+  let so := show_m (show_opt show_Z) in
+  let sr := show_m (show_res show_Z show_Z) in
+  if String.eqb mac "unwrap_ctx" then Some (show_m (show_outcome show_Z) (res_unwrap_ctx e))
+  else if String.eqb mac "unwrap_or" then Some (sz (res_unwrap_or e (ev_v k)))
+  else if String.eqb mac "unwrap_or_else" then
+    Some (sz (if closure then res_unwrap_or_else_c e (fn_map c k) else res_unwrap_or_else_f e (fn_map c k)))
+  else if String.eqb mac "unwrap_err_or_else" then
+    Some (sz (if closure then res_unwrap_err_or_else_c e (fn_map c k) else res_unwrap_err_or_else_f e (fn_map c k)))
+  else if String.eqb mac "ok" then Some (so (res_ok e))
+  else if String.eqb mac "err" then Some (so (res_err e))
+  else if String.eqb mac "map" then
+    Some (sr (if closure then res_map_c e (fn_map c k) else res_map_f e (fn_map c k)))
+  else if String.eqb mac "map_err" then
+    Some (sr (if closure then res_map_err_c e (fn_map c k) else res_map_err_f e (fn_map c k)))
+  else if String.eqb mac "and_then" then
+    Some (sr (if closure then res_and_then_c e (fn_res c k) else res_and_then_f e (fn_res c k)))
+  else if String.eqb mac "or_else" then
+    Some (sr (if closure then res_or_else_c e (fn_res c k) else res_or_else_f e (fn_res c k)))
+  else None.
+
+(* ------------------------------------------------------------------ try_! / try_opt! *)
+Definition k_res (k x : Z) : MZ (result Z Z) := (Ok (half x + k), [5; x]).
+Definition k_opt (k x : Z) : MZ (option Z) := (Some (half x + k), [5; x]).
+
+Definition run_try (mac form variant : string) (x k : Z) : option string :=
+  let sr := show_m (show_res show_Z show_Z) in
+  if String.eqb mac "try" then Some (sr (try_m (ev_e (res_of variant x)) (k_res k)))
+  else if String.eqb mac "try_map_err" then
+    if String.eqb form "Z"
+    then Some (sr (try_map_err0_m (ev_e (res_of variant x)) (k, [11]) (k_res k)))
+    else Some (sr (try_map_err_m (ev_e (res_of variant x)) (fun e0 => (half e0 - k, [10; e0])) (k_res k)))
+  else if String.eqb mac "try_opt" then
+    Some (show_m (show_opt show_Z) (try_opt_m (ev_e (opt_of variant x)) (k_opt k)))
+  else None.
+
+(* ------------------------------------------------------------------ min / max *)
+Definition key_shape (shape k : Z) : Z :=
+  if Z.eqb shape 0 then k else if Z.eqb shape 1 then (- k - 1)%Z
+  else if Z.eqb shape 2 then (k mod 3)%Z else 0%Z.
+Definition show_side (s : side) : string := match s with L => "L" | R => "R" end.
+
+Definition run_minmax (mac : string) (shape kl kr : Z) : option string :=
+  let key := key_shape shape in
+  let cmp := fun a b => Z.compare (key a) (key b) in
+  if String.eqb mac "min" then Some (show_side (min_m cmp kl kr))
+  else if String.eqb mac "max" then Some (show_side (max_m cmp kl kr))
+  else if String.eqb mac "min_by" then Some (show_side (min_by_m cmp kl kr))
+  else if String.eqb mac "max_by" then Some (show_side (max_by_m cmp kl kr))
+  else if String.eqb mac "min_by_key" then Some (show_side (min_by_key_m Z.compare key kl kr))
+  else if String.eqb mac "max_by_key" then Some (show_side (max_by_key_m Z.compare key kl kr))
+  else None.
+
+Definition run_minmaxprim (mac : string) (a b : Z) : option string :=
+  if String.eqb mac "min" then Some (show_Z (pick (min_m Z.compare a b) a b))
+  else if String.eqb mac "max" then Some (show_Z (pick (max_m Z.compare a b) a b))
+  else None.
+
+(* ------------------------------------------------------------------ rebind *)
+Local Open Scope nat_scope.
+Definition ty0 : tok := KTy 0.
+Definition place_p (i : nat) : list tok := [KIdent i].
+Definition place_f (i : nat) : list tok := [KIdent 100; KDot; KIdent i].
+Definition place_x (i : nat) : list tok := [KIdent 101; KBracket [KNum i]].
+Definition bind_l (i : nat) : tok := KIdent (200 + i).
+
+(** the tokens of the target written at position [i] for a kind atom *)
+Definition kind_toks (kind : string) (i : nat) : option (list tok) :=
+  if String.eqb kind "P" then Some (place_p i)
+  else if String.eqb kind "PT" then Some (place_p i ++ [KColon; ty0])%list
+  else if String.eqb kind "D" then Some (place_p 0)
+  else if String.eqb kind "F" then Some (place_f i)
+  else if String.eqb kind "X" then Some (place_x i)
+  else if String.eqb kind "L" then Some [KLet; bind_l i]
+  else if String.eqb kind "T" then Some [KLet; bind_l i; KColon; ty0]
+  else if String.eqb kind "U" then Some [KUnd]
+  else if String.eqb kind "UT" then Some [KUnd; KColon; ty0]
+  else None.
+
+Fixpoint kinds_toks (kinds : list string) (i : nat) : option (list tok) :=
+  match kinds with
+  | [] => Some []
+  | [k] => kind_toks k i
+  | k :: r =>
+      match kind_toks k i, kinds_toks r (S i) with
+      | Some a, Some b => Some (a ++ KComma :: b)%list
+      | _, _ => None
+      end
+  end.
+
+(** shape B: the bare single target (one token, optionally [: ty]) ; G: ( targets ) ;
+    GC: ( targets , ) *)
+Definition build_rpat (shape : string) (kinds : list string) : option rpat :=
+  if String.eqb shape "B" then
+    match kinds with
+    | [k] =>
+        match kind_toks k 0 with
+        | Some [t] => Some (RP t None)
+        | Some [t; KColon; ty] => Some (RP t (Some ty))
+        | _ => None
+        end
+    | _ => None
+    end
+  else
+    match kinds_toks kinds 0 with
+    | Some ts =>
+        if String.eqb shape "G" then Some (RP (KParen ts) None)
+        else if String.eqb shape "GC" then Some (RP (KParen (ts ++ [KComma])%list) None)
+        else None
+    | None => None
+    end.
+
+Definition show_rval (v : rval) : string :=
+  match v with VInt z => show_Z z | VTup l => show_list show_Z l end.
+
+Definition six : list nat := [0; 1; 2; 3; 4; 5].
+Definition init_store0 : store :=
+  (map (fun i => (place_p i, VInt (- (100 + Z.of_nat i))%Z)) six ++
+   map (fun i => (place_f i, VInt (- (200 + Z.of_nat i))%Z)) six ++
+   map (fun i => (place_x i, VInt (- (300 + Z.of_nat i))%Z)) six)%list.
+
+(** the one-component-tuple cases declare p0 with the tuple type *)
+Definition init_store (tup1 : bool) : store :=
+  if tup1 then (place_p 0, VTup [(-100)%Z]) :: init_store0 else init_store0.
+
+Definition show_place (st : store) (pl : list tok) : string :=
+  match lookup pl st with Some v => show_rval v | None => "?" end.
+Definition show_state (tag : string) (st : store) : string :=
+  show_fields
+    [("r", tag);
+     ("p", show_list (fun i => show_place st (place_p i)) six);
+     ("f", show_list (fun i => show_place st (place_f i)) six);
+     ("x", show_list (fun i => show_place st (place_x i)) six);
+     ("l", show_list (fun i => show_opt show_rval (lookup [bind_l i] st)) six)].
+
+Definition run_rebind (mac shape : string) (kinds : list string) (variant : string)
+           (payload : list Z) : option string :=
+  match build_rpat shape kinds with
+  | None => None
+  | Some (RP t ty as rp) =>
+      let tup1 := String.eqb variant "OT1" || String.eqb variant "ET1" in
+      let init_store := init_store tup1 in
+      let e : result rval Z :=
+        if String.eqb variant "OS" then Ok (VInt (hd 0%Z payload))
+        else if String.eqb variant "OT" || String.eqb variant "OT1" then Ok (VTup payload)
+        else Err (hd 0%Z payload) in
+      let out :=
+        if String.eqb mac "rebind_if_ok" then Some (rebind_if_ok_m rp e init_store)
+        else if String.eqb mac "try_rebind" then
+          match ty with None => Some (try_rebind_m t e init_store) | Some _ => None end
+        else None in
+      match out with
+      | None => None
+      | Some (Rebound st) => Some (show_state "ok" st)
+      | Some Skipped => Some (show_state "skip" init_store)
+      | Some (Returned x) => Some ("r=ret(" ++ show_Z x ++ ")")
+      | Some Rejected => Some "r=rejected"
+      end
+  end.
+Local Close Scope nat_scope.
+
+(* ------------------------------------------------------------------ dispatch *)
+Definition c19_run (fam : string) (args : list val) : option string :=
+  if String.eqb fam "c19.opt" then
+    match args with
+    | [_; mac; form; variant; x; k] => run_opt (as_atom mac) (as_atom form) (as_atom variant) (as_Z x) (as_Z k)
+    | _ => None
+    end
+  else if String.eqb fam "c19.res" then
+    match args with
+    | [_; mac; form; variant; x; k] => run_res (as_atom mac) (as_atom form) (as_atom variant) (as_Z x) (as_Z k)
+    | _ => None
+    end
+  else if String.eqb fam "c19.try" then
+    match args with
+    | [_; mac; form; variant; x; k] => run_try (as_atom mac) (as_atom form) (as_atom variant) (as_Z x) (as_Z k)
+    | _ => None
+    end
+  else if String.eqb fam "c19.minmax" then
+    match args with
+    | [mac; _; shape; kl; kr] => run_minmax (as_atom mac) (as_Z shape) (as_Z kl) (as_Z kr)
+    | _ => None
+    end
+  else if String.eqb fam "c19.minmaxprim" then
+    match args with
+    | [mac; _; a; b] => run_minmaxprim (as_atom mac) (as_Z a) (as_Z b)
+    | _ => None
+    end
+  else if String.eqb fam "c19.rebind" then
+    match args with
+    | [mac; shape; kinds; variant; payload] =>
+        run_rebind (as_atom mac) (as_atom shape) (map as_atom (as_list kinds)) (as_atom variant)
+                   (map as_Z (as_list payload))
+    | _ => None
+    end
+  else None.
